@@ -318,10 +318,23 @@ def conclude(pid, spec, results, tier, seed, wall, kani=(), extra_viol=()):
     for k, h, r in kani_viol:
         os.makedirs(REPLAYS, exist_ok=True)
         path = os.path.join(REPLAYS, '%s-kani-%s.json' % (pid, h))
+        # Kani's counterexample (concrete playback), replayed against the real crate through the replay driver
+        winp = None
+        cex = r.get('cex')
+        if cex:
+            try:
+                import witness
+                w = {'op': cex['op'], 'lhs': cex['lhs'], 'rhs': cex.get('rhs', '-'), 'n': cex.get('n', 0),
+                     'mode': cex.get('mode', 'RoundHalfEven'), 'prec': '-'}
+                line = '\t'.join([w['op'], w['lhs'], w['rhs'], str(w['n']), w['mode'], '-'])
+                winp = witness.compare([line], [(w['op'], w['lhs'], w['rhs'], w['n'], w['mode'], '-')])
+            except Exception:
+                winp = None
         with open(path, 'w') as f:
             json.dump({'property': pid, 'obligation': {'kani_harness': h, 'script': k['script']}, 'verifier': 'kani',
-                       'verifier_cmd': r.get('cmd'), 'verifier_output': k['stdout'], 'input': None}, f, indent=1)
-        out_lines.append('VIOLATION property=%s replay=%s no-failing-input-found' % (pid, path))
+                       'verifier_cmd': r.get('cmd'), 'verifier_output': k['stdout'], 'kani_counterexample': cex,
+                       'input': winp}, f, indent=1)
+        out_lines.append('VIOLATION property=%s replay=%s%s' % (pid, path, '' if winp else ' no-failing-input-found'))
         rc = 1
         violations.append((None, None, {'fn': h}))
     if undecided:
